@@ -1,14 +1,429 @@
-// Package c04 is the correspondence area of property C04 (stub: the slice is not built yet).
+// Package c04 is the correspondence area of property C04: the real
+// transcoding.StandardTranscoder.Bind(...).Transcode (and its stream variant) run on request
+// messages whose schemas are built at run time (descriptorpb -> protodesc -> dynamicpb) and are NOT
+// in protoregistry.GlobalTypes, compared with the Lean model GB.C04.transcode.
+//
+// Every case is executed in three registry configurations (see Schema.build): A = target-only types
+// (production), B = same types additionally registered globally, C = a decoy with the same names
+// registered globally. The results must be identical (registry independence).
+//
+// Ops (one per line):
+//
+//	tc <schema> R <root> B <bodypath> <bodybytes> PP <n> {<k> <v>} Q <n> {<k> <nv> {<v>}}
+//	    => D <dec> O <n> {<tag> <text> <parse>} RA <res> RB <res|same> RC <res|same>
+//	ts <schema> R <root> B <bodypath> <streambytes> N <calls> PP ... Q ...
+//	    => D <k> {<dec>} O ... RA <k> {<res>} RB ... RC ...
+//	pf <kind> <text>                 => ok <val> | okm <entries> | err      (gwquery.PopulateFieldFromPath on a one-field message)
+//	hcp <n> {<dotted seq>} <dotted seq>  => true|false                       (the query filter's prefix test)
 package c04
 
 import (
-	"math/rand"
+	"bytes"
+	"errors"
+	"fmt"
+	"io"
+	"net/http"
+	"net/url"
+	"os"
+	"strconv"
+	"strings"
+
+	"github.com/renbou/grpcbridge/bridgedesc"
+	"github.com/renbou/grpcbridge/transcoding"
+	"github.com/renbou/grpcbridge/verifx"
+	"google.golang.org/grpc/codes"
+	"google.golang.org/grpc/status"
+	"google.golang.org/protobuf/reflect/protoreflect"
+	"google.golang.org/protobuf/types/dynamicpb"
+	"verif/harness/common"
 )
 
 type Area struct{}
 
 func (Area) Name() string { return "c04" }
 
-func (Area) Exec(input string) string { return "UNIMPLEMENTED" }
+type kv struct {
+	K string
+	V []string
+}
 
-func (Area) Gen(r *rand.Rand, tier string, emit func(string)) {}
+type tcCase struct {
+	Op       string
+	Schema   *Schema
+	Root     string
+	BodyPath string
+	Body     []byte
+	Calls    int
+	PP       []kv
+	Q        []kv
+}
+
+func (c *tcCase) Line() string {
+	t := []string{c.Op}
+	t = append(t, c.Schema.Tokens()...)
+	t = append(t, "R", c.Root, "B", common.HexS(c.BodyPath), common.Hex(c.Body))
+	if c.Op == "ts" {
+		t = append(t, "N", strconv.Itoa(c.Calls))
+	}
+	t = append(t, "PP", strconv.Itoa(len(c.PP)))
+	for _, p := range c.PP {
+		t = append(t, common.HexS(p.K), common.HexS(p.V[0]))
+	}
+	t = append(t, "Q", strconv.Itoa(len(c.Q)))
+	for _, q := range c.Q {
+		t = append(t, common.HexS(q.K), strconv.Itoa(len(q.V)))
+		for _, v := range q.V {
+			t = append(t, common.HexS(v))
+		}
+	}
+	return strings.Join(t, " ")
+}
+
+func parseCase(f []string) *tcCase {
+	r := &tokReader{t: f}
+	c := &tcCase{Op: r.next()}
+	c.Schema = parseSchema(r)
+	r.expect("R")
+	c.Root = r.next()
+	r.expect("B")
+	c.BodyPath = string(common.MustUnHex(r.next()))
+	c.Body = common.MustUnHex(r.next())
+	if c.Op == "ts" {
+		r.expect("N")
+		c.Calls = r.int()
+	}
+	r.expect("PP")
+	n := r.int()
+	for i := 0; i < n; i++ {
+		k := string(common.MustUnHex(r.next()))
+		c.PP = append(c.PP, kv{k, []string{string(common.MustUnHex(r.next()))}})
+	}
+	r.expect("Q")
+	n = r.int()
+	for i := 0; i < n; i++ {
+		q := kv{K: string(common.MustUnHex(r.next()))}
+		nv := r.int()
+		for j := 0; j < nv; j++ {
+			q.V = append(q.V, string(common.MustUnHex(r.next())))
+		}
+		c.Q = append(c.Q, q)
+	}
+	if r.i != len(f) {
+		panic("trailing tokens")
+	}
+	return c
+}
+
+func errTok(err error) string {
+	if err == nil {
+		return "nil"
+	}
+	if errors.Is(err, io.EOF) {
+		if _, ok := status.FromError(err); !ok {
+			return "err eof"
+		}
+	}
+	st, ok := status.FromError(err)
+	if !ok {
+		return "err nonstatus"
+	}
+	switch st.Code() {
+	case codes.InvalidArgument:
+		if os.Getenv("C04_DEBUG") != "" {
+			return "err InvalidArgument:" + strings.ReplaceAll(st.Message(), " ", "_")
+		}
+		return "err InvalidArgument"
+	case codes.Internal:
+		return "err Internal"
+	}
+	return "err other" + strconv.Itoa(int(st.Code()))
+}
+
+// runReal executes the real bound transcoder in one registry configuration.
+func (c *tcCase) runReal(cfg string) (out string) {
+	defer func() {
+		if r := recover(); r != nil {
+			// the panic text names the run-time package of the configuration: not part of the canonical output
+			out = "panic x"
+			if c.Op == "ts" {
+				out = "1 panic x"
+			}
+		}
+	}()
+	b, err := c.Schema.build(cfg)
+	if err != nil {
+		return "buildfail " + common.HexS(err.Error())
+	}
+	md := b.Msg(c.Root)
+	vals := url.Values{}
+	for _, q := range c.Q {
+		vals[q.K] = append([]string{}, q.V...)
+	}
+	pp := map[string]string{}
+	for _, p := range c.PP {
+		pp[p.K] = p.V[0]
+	}
+	tr := transcoding.NewStandardTranscoder(transcoding.StandardTranscoderOpts{})
+	method := &bridgedesc.Method{RPCName: "/x.S/M", Input: bridgedesc.DynamicMessage(md), Output: bridgedesc.DynamicMessage(md), ClientStreaming: c.Op == "ts"}
+	req := transcoding.HTTPRequest{
+		Target:     &bridgedesc.Target{Name: "t", FileResolver: b.Files, TypeResolver: b.Types},
+		Service:    &bridgedesc.Service{Name: "x.S"},
+		Method:     method,
+		Binding:    &bridgedesc.Binding{HTTPMethod: "POST", Pattern: "/x", RequestBodyPath: c.BodyPath},
+		RawRequest: &http.Request{Method: "POST", Header: http.Header{}, URL: &url.URL{Path: "/x", RawQuery: vals.Encode()}},
+		PathParams: pp,
+	}
+	in, _, err := tr.Bind(req)
+	if err != nil {
+		return "bindfail"
+	}
+	if c.Op == "tc" {
+		msg := method.Input.New()
+		if err := in.Transcode(c.Body, msg); err != nil {
+			return errTok(err)
+		}
+		return "ok " + msgTok(msg.ProtoReflect())
+	}
+	st, ok := in.(transcoding.RequestStreamTranscoder)
+	if !ok {
+		return "nostream"
+	}
+	stream := st.Stream(bytes.NewReader(c.Body))
+	var res []string
+	call := func() (r string, stop bool) {
+		defer func() {
+			if p := recover(); p != nil {
+				r, stop = "panic x", true
+			}
+		}()
+		msg := method.Input.New()
+		if err := stream.Transcode(msg); err != nil {
+			return errTok(err), true
+		}
+		return "ok " + msgTok(msg.ProtoReflect()), false
+	}
+	for i := 0; i < c.Calls; i++ {
+		r, stop := call()
+		res = append(res, r)
+		if stop {
+			break
+		}
+	}
+	return strconv.Itoa(len(res)) + " " + strings.Join(res, " ")
+}
+
+// decOracle: what the marshaler (JSON codec, C09's concern) decodes from the body into a FRESH message
+// at the body path — handed to the model as a post-library input.
+func (c *tcCase) decOracle() (out string) {
+	defer func() {
+		if r := recover(); r != nil {
+			out = "panic"
+		}
+	}()
+	b, err := c.Schema.build("A")
+	if err != nil {
+		return "buildfail"
+	}
+	md := b.Msg(c.Root)
+	one := func(decode func(protoreflect.Message, protoreflect.FieldDescriptor) (bool, error)) (res string) {
+		defer func() {
+			if r := recover(); r != nil {
+				res = "panic"
+			}
+		}()
+		if c.BodyPath == "" {
+			return "none"
+		}
+		root := dynamicpb.NewMessage(md)
+		msg, fd, err := transcoding.VerifTraverseFieldPath(root, c.BodyPath)
+		if err != nil {
+			return "trav"
+		}
+		did, err := decode(msg, fd)
+		if err != nil {
+			if errors.Is(err, io.EOF) && c.Op == "ts" {
+				return "eof"
+			}
+			return "err"
+		}
+		if !did {
+			return "none"
+		}
+		var es [][]string
+		flat(msg, "", &es)
+		if fd != nil {
+			var keep [][]string
+			pfx := string(fd.Name())
+			for _, e := range es {
+				p := string(common.MustUnHex(e[0]))
+				if p == pfx || strings.HasPrefix(p, pfx+".") {
+					keep = append(keep, e)
+				}
+			}
+			es = keep
+		}
+		return "ok " + entriesTok(es)
+	}
+	if c.Op == "tc" {
+		return one(func(m protoreflect.Message, fd protoreflect.FieldDescriptor) (bool, error) {
+			if len(c.Body) == 0 {
+				return false, nil
+			}
+			return true, transcoding.DefaultJSONMarshaler.Unmarshal(b.Types, c.Body, m, fd)
+		})
+	}
+	dec := transcoding.DefaultJSONMarshaler.NewDecoder(b.Types, bytes.NewReader(c.Body))
+	var res []string
+	for i := 0; i < c.Calls; i++ {
+		r := one(func(m protoreflect.Message, fd protoreflect.FieldDescriptor) (bool, error) {
+			return true, dec.Decode(m, fd)
+		})
+		res = append(res, r)
+		if !strings.HasPrefix(r, "ok") && r != "none" {
+			break
+		}
+	}
+	return strconv.Itoa(len(res)) + " " + strings.Join(res, " ")
+}
+
+func (c *tcCase) oracleTable() string {
+	tags := map[string]bool{}
+	for _, m := range c.Schema.Msgs {
+		if oracleMsgTypes[m.Name] || modelledWrappers[m.Name] {
+			tags[m.Name] = true
+		}
+		for _, f := range m.Fields {
+			if f.Kind == "float" || f.Kind == "double" {
+				tags[f.Kind] = true
+			}
+		}
+	}
+	texts := map[string]bool{}
+	for _, p := range c.PP {
+		texts[p.V[0]] = true
+	}
+	for _, q := range c.Q {
+		for _, v := range q.V {
+			texts[v] = true
+		}
+		if i := strings.LastIndexByte(q.K, '['); i >= 0 && strings.HasSuffix(q.K, "]") {
+			texts[q.K[i+1:len(q.K)-1]] = true
+		}
+	}
+	var tagL, textL []string
+	for t := range tags {
+		tagL = append(tagL, t)
+	}
+	for t := range texts {
+		textL = append(textL, t)
+	}
+	sortStrings(tagL)
+	sortStrings(textL)
+	var parts []string
+	n := 0
+	for _, tg := range tagL {
+		for _, tx := range textL {
+			parts = append(parts, tg, common.HexS(tx), oracleParse(tg, tx))
+			n++
+		}
+	}
+	return strings.TrimSpace(strconv.Itoa(n) + " " + strings.Join(parts, " "))
+}
+
+func (c *tcCase) checkSchema() error {
+	b, err := c.Schema.build("A")
+	if err != nil {
+		return err
+	}
+	var roots []protoreflect.MessageDescriptor
+	for _, m := range c.Schema.Msgs {
+		if !isWKT(m.Name) {
+			roots = append(roots, b.Msg(m.Name))
+		}
+	}
+	if got := specOf(b.Pkg, roots).String(); got != c.Schema.String() {
+		return fmt.Errorf("line schema does not describe the built descriptors:\n line: %s\n desc: %s", c.Schema.String(), got)
+	}
+	return nil
+}
+
+func (Area) Exec(input string) string {
+	f := strings.Fields(input)
+	switch f[0] {
+	case "tc", "ts":
+		c := parseCase(f)
+		if err := c.checkSchema(); err != nil {
+			return "BADSCHEMA " + common.HexS(err.Error())
+		}
+		ra := c.runReal("A")
+		rb := c.runReal("B")
+		rc := c.runReal("C")
+		if rb == ra {
+			rb = "same"
+		}
+		if rc == ra {
+			rc = "same"
+		}
+		return "D " + c.decOracle() + " O " + c.oracleTable() + " RA " + ra + " RB " + rb + " RC " + rc
+	case "pf":
+		return execPF(f[1], string(common.MustUnHex(f[2])))
+	case "hcp":
+		n, _ := strconv.Atoi(f[1])
+		var seqs [][]string
+		for i := 0; i < n; i++ {
+			seqs = append(seqs, strings.Split(string(common.MustUnHex(f[2+i])), "."))
+		}
+		seq := strings.Split(string(common.MustUnHex(f[2+n])), ".")
+		return strconv.FormatBool(verifx.QueryFilterHasCommonPrefix(seqs, seq))
+	}
+	return "BADOP"
+}
+
+// pfSchema is the fixed one-field-per-kind schema of the pf op (mirrored in GB/C04/Driver.lean).
+var pfSchema = func() *Schema {
+	s := &Schema{Enums: []EnumSpec{{Name: "PE", Vals: []EnumVal{{"PE_ZERO", 0}, {"PE_ONE", 1}, {"PE_NEG", -1}, {"PE_MAX", 2147483647}, {"ALIAS", 1}}}}}
+	m := MsgSpec{Name: "PF"}
+	for i, k := range []string{"bool", "int32", "sint32", "sfixed32", "int64", "sint64", "sfixed64", "uint32", "fixed32", "uint64", "fixed64", "string", "bytes"} {
+		m.Fields = append(m.Fields, FieldSpec{Name: "f_" + k, JSON: "f_" + k, Num: i + 1, Kind: k, Card: "s", Pres: true, Oneof: "p" + strconv.Itoa(i), Ref: "-"})
+	}
+	m.Fields = append(m.Fields, FieldSpec{Name: "f_enum", JSON: "f_enum", Num: 30, Kind: "enum", Card: "s", Pres: true, Oneof: "p13", Ref: "PE"})
+	for i, w := range []string{"Int64Value", "Int32Value", "UInt64Value", "UInt32Value", "BoolValue", "StringValue", "BytesValue", "FieldMask"} {
+		m.Fields = append(m.Fields, FieldSpec{Name: "f_" + w, JSON: "f_" + w, Num: 40 + i, Kind: "message", Card: "s", Pres: true, Oneof: "-", Ref: "google.protobuf." + w})
+	}
+	s.Msgs = []MsgSpec{m}
+	return s
+}()
+
+func execPF(kind, text string) (out string) {
+	defer func() {
+		if r := recover(); r != nil {
+			out = "panic " + common.HexS(fmt.Sprint(r))
+		}
+	}()
+	b, err := pfSchema.build("A")
+	if err != nil {
+		return "buildfail " + common.HexS(err.Error())
+	}
+	msg := dynamicpb.NewMessage(b.Msg("PF"))
+	if err := verifx.QueryPopulateFieldFromPath(msg, "f_"+kind, text); err != nil {
+		return "err"
+	}
+	fd := msg.Descriptor().Fields().ByName(protoreflect.Name("f_" + kind))
+	if fd == nil {
+		return "BADKIND"
+	}
+	if fd.Message() != nil {
+		var es [][]string
+		flat(msg.Get(fd).Message(), "", &es)
+		return "okm " + entriesTok(es)
+	}
+	return "ok " + valTok(fd, msg.Get(fd))
+}
+
+func sortStrings(s []string) {
+	for i := 1; i < len(s); i++ {
+		for j := i; j > 0 && s[j] < s[j-1]; j-- {
+			s[j], s[j-1] = s[j-1], s[j]
+		}
+	}
+}
